@@ -333,6 +333,7 @@ type resRec struct {
 	mu   sync.Mutex
 	evs  []string
 	keep []resKept
+	n    int
 }
 type resKept struct {
 	ribs map[string]*aft.RIB
@@ -395,7 +396,44 @@ func (h *resRec) fn(ribs map[string]*aft.RIB, op constants.OpType, ni string, a 
 	h.mu.Lock()
 	defer h.mu.Unlock()
 	h.evs = append(h.evs, fmt.Sprintf("%s %s %s %s", kind, S(ni), k.Enc(), B(has)))
+	h.n++
+	if h.n%2 == 0 {
+		// every second notification: a consumer that uses the snapshot it was handed as its own
+		// working copy and writes all over it. The snapshot is the consumer's; neither the
+		// snapshots delivered before (kept below and rendered again at the end) nor the RIB
+		// may change with it.
+		scribble(ribs)
+		return
+	}
 	h.keep = append(h.keep, resKept{ribs: ribs, at: renderRIBs(ribs)})
+}
+
+// scribble overwrites what a consumer can reach in a snapshot: the group of every IPv4, IPv6 and
+// label entry, the weights of every group member; and it empties the next-hop table.
+func scribble(ribs map[string]*aft.RIB) {
+	for _, r := range ribs {
+		a := r.GetAfts()
+		if a == nil {
+			continue
+		}
+		for _, e := range a.Ipv4Entry {
+			e.NextHopGroup = ygot.Uint64(999)
+		}
+		for _, e := range a.Ipv6Entry {
+			e.NextHopGroup = ygot.Uint64(999)
+		}
+		for _, e := range a.LabelEntry {
+			e.NextHopGroup = ygot.Uint64(999)
+		}
+		for _, g := range a.NextHopGroup {
+			for _, m := range g.NextHop {
+				m.Weight = ygot.Uint64(64)
+			}
+		}
+		for k := range a.NextHop {
+			delete(a.NextHop, k)
+		}
+	}
 }
 
 // hookGoroutines reports whether some goroutine is (about to be) running the resolved hook.
